@@ -38,6 +38,8 @@ def plan(tier, seed):
             lim = 7 if quick else 10
             shape = [int(rng.integers(1, lim + 1)) for _ in range(nd)]
             c = {"fn": f, "shape": shape, "cplx": bool(rng.random() < 0.5),
+                 "dt": pick(rng, ["default", "default", "default", "float32", "complex64",
+                                  "int64"]), "noncontig": bool(rng.random() < 0.25),
                  "via": pick(rng, ["func", "linop"])}
             if f == "resize":
                 c["oshape"] = [max(1, s + int(rng.integers(-4, 5))) for s in shape]
@@ -81,10 +83,22 @@ def plan(tier, seed):
     return P.cases
 
 
+_DT = ["default"]
+_NC = [False]
+
+
 def label(shape, cplx):
     x = np.arange(1, int(np.prod(shape)) + 1, dtype=np.float64).reshape(shape)
-    if cplx:
+    if cplx and _DT[0] not in ("float32", "int64"):
         x = x + 1j * x
+    if _DT[0] != "default":
+        x = x.astype(_DT[0])
+    if _NC[0] and x.ndim >= 1:
+        # same values seen through a strided (non-contiguous) view
+        big = np.zeros(tuple(2 * n for n in x.shape), x.dtype)
+        sl = tuple(slice(None, None, 2) for _ in x.shape)
+        big[sl] = x
+        x = big[sl]
     return x
 
 
@@ -189,6 +203,8 @@ def run_case(case):
     via = case["via"]
     wit = dict(case)
     op = None
+    _DT[0] = case.get("dt", "default")
+    _NC[0] = bool(case.get("noncontig"))
     try:
         if f in ("resize", "resize-shift"):
             x = label(shape, cplx)
@@ -273,7 +289,8 @@ def run_case(case):
         mech = "bounds" if isinstance(inn, IndexError) else "raised:" + type(inn).__name__
         return violated(sig, "%s raised %s: %s" % (f, type(inn).__name__, str(inn)[:200]),
                         wit, mech=mech)
-    sig = "%s|%s|%s|%s" % (f, via, cls, "c" if cplx else "r")
+    sig = "%s|%s|%s|%s|%s%s" % (f, via, cls, "c" if cplx else "r", case.get("dt", "default"),
+                                "|nc" if case.get("noncontig") else "")
     x0 = label(x.shape, cplx)
     if not np.array_equal(x, x0):
         return violated(sig, "%s modified its input" % f, wit, mech="mutated")
@@ -284,6 +301,10 @@ def run_case(case):
     if tuple(got.shape) != tuple(ref.shape):
         return violated(sig, "output shape %s, definition gives %s" % (got.shape, ref.shape),
                         wit, mech="shape")
+    if got.dtype != x.dtype:
+        return violated(sig, "%s changed the element type from %s to %s" % (f, x.dtype,
+                                                                             got.dtype), wit,
+                        mech="dtype:" + f)
     if not np.array_equal(got, ref):
         bad = np.argwhere(got != ref)
         k = tuple(bad[0])
